@@ -14,35 +14,57 @@ from hypothesis import strategies as st
 from vf import gen
 
 
+FLOAT_THRESHOLDS = [8.125890664701906, 37.519379347, 38.4754, 38.58, 26.5, 37.0]
+
+
 @st.composite
 def two_team_sweep(draw, kinds=gen.KINDS, x_lo=-10.0, x_hi=10.0, outcomes=("win", "loss", "draw")):
     """-> a full rate() case (like gen.games) of two teams whose standardised gap x is drawn uniformly from [x_lo, x_hi]."""
     cfg = draw(gen.configs(kinds=kinds, scales=draw(st.integers(0, 3)) == 0, gammas=["default", "default", "one", "inv_k"]))
     beta = cfg["beta"]
     tau = cfg["tau"]
-    sizes = draw(st.sampled_from([[1, 1], [1, 1], [1, 1], [2, 2], [1, 2], [3, 1], [2, 1]]))
+    mode = draw(st.integers(0, 9))
+    far = mode == 0  # neighbourhoods of the thresholds of the underlying float functions, far out in the tails
+    sizes = draw(st.sampled_from([[4, 4], [4, 5], [8, 8], [3, 4]])) if far else draw(st.sampled_from([[1, 1], [1, 1], [1, 1], [2, 2], [1, 2], [3, 1], [2, 1]]))
     # sigma relative to beta: uniform on a log scale (also a derived quantity worth sweeping), defaults included
     def sg():
+        if far:
+            return draw(st.floats(-4.0, -0.5).map(lambda u: 10.0 ** u)) * beta  # settled players: c_iq close to sqrt(2) beta, so large |x| fit the mu range
         return draw(st.one_of(st.just(2.0), st.floats(-4.0, 1.0).map(lambda u: 10.0 ** u))) * beta
     teams = [[[0.0, sg()] for _ in range(k)] for k in sizes]
-    x = draw(st.floats(x_lo, x_hi))
+    if far:
+        # where erfc / exp / the epsilon guards change regime: Phi(-x) = 2^-52 (8.126), smallest normal (37.52), Phi(-x) -> 0 (38.4754),
+        # exp(-x^2/2) -> 0 (38.58); +-0.15 around each, both signs
+        x = (draw(st.sampled_from(FLOAT_THRESHOLDS)) + draw(st.floats(-0.15, 0.15))) * draw(st.sampled_from([1.0, -1.0]))
+    elif draw(st.integers(0, 4)) == 0:
+        # ... and the neighbourhood of x = 0 on a log scale (nearly even pairs: 1e-12 .. 1 standard deviations)
+        x = 10.0 ** draw(st.floats(-12.0, 0.0)) * draw(st.sampled_from([1.0, -1.0]))
+    else:
+        x = draw(st.floats(x_lo, x_hi))
     var = lambda t: sum(p[1] * p[1] + tau * tau for p in t)  # noqa: E731
     c = math.sqrt(var(teams[0]) + var(teams[1]) + 2 * beta * beta) * (2.0 if cfg["kind"] == "TMP" else 1.0)
-    centre = draw(st.sampled_from([0.0, 0.0, 6.0, -3.0])) * beta  # where the pair sits on the scale
     gap = x * c
-    # put the gap on the first member of team 0, keep everything inside [-20 beta, 20 beta]
-    m1 = centre / max(1, sizes[1])
-    for p in teams[1]:
-        p[0] = m1
-    tot1 = m1 * sizes[1]
-    rest = centre / max(1, sizes[0])
-    for p in teams[0]:
-        p[0] = rest
-    teams[0][0][0] = rest + (tot1 + gap - rest * sizes[0])
-    ok = all(abs(p[0]) <= 20.0 * beta for t in teams for p in t)
-    if not ok:
-        # fall back to a gap that fits (keeps the case valid; x is recomputed below)
-        teams[0][0][0] = max(-20.0 * beta, min(20.0 * beta, teams[0][0][0]))
+    if far:
+        # spread the gap over all members of both teams (each stays inside [-20 beta, 20 beta])
+        for p in teams[0]:
+            p[0] = gap / 2.0 / sizes[0]
+        for p in teams[1]:
+            p[0] = -gap / 2.0 / sizes[1]
+    else:
+        centre = draw(st.sampled_from([0.0, 0.0, 6.0, -3.0])) * beta  # where the pair sits on the scale
+        # put the gap on the first member of team 0
+        m1 = centre / max(1, sizes[1])
+        for p in teams[1]:
+            p[0] = m1
+        tot1 = m1 * sizes[1]
+        rest = centre / max(1, sizes[0])
+        for p in teams[0]:
+            p[0] = rest
+        teams[0][0][0] = rest + (tot1 + gap - rest * sizes[0])
+    for t in teams:
+        for p in t:
+            # keep the case valid whatever was drawn (x is recomputed below)
+            p[0] = max(-20.0 * beta, min(20.0 * beta, p[0]))
     outcome = draw(st.sampled_from(list(outcomes)))
     ranks = {"win": [0, 1], "loss": [1, 0], "draw": [0, 0]}[outcome]
     call = {"ranks": ranks}
